@@ -47,6 +47,25 @@ def queue_model(v, wd, deep):
     log(f"[{v.pid}] (A0) QueueSpec: invariants hold for every packetisation in the bounded instance as built ({out[0]['states']} + {out[1]['states']} states), each of the {len(out) - 2} protocol variants has a counterexample")
 
 
+def queue_files(v, wd, deep):
+    """(A1) every file of QueueSpec's bounded environment, exported by TLC (MC_QueueExport), as cases for the real reader"""
+    import queuefiles
+    cfg = os.path.join(wd, "qexport.cfg")
+    vlib.write_cfg(cfg, init="Init", nxt="Next", constants={"Variant": '"asbuilt"', "Driver": '"iterator"', "Widths": "<- MCWidthsSmall", "MaxN": 0, "MaxOther": 0, "FillCap": 1,
+                                                           "ExpN": 4, "ExpOther": 1, "ExpBytes": 6 if deep else 4})
+    out = os.path.join(wd, "qexport.out")
+    p = subprocess.run(["timeout", "1800", "tlc", "-workers", "1", "-metadir", os.path.join(wd, "mq"), "-cleanup", "-noGenerateSpecTE",
+                        "-config", cfg, os.path.join(vlib.SPEC, "MC_QueueExport.tla")], stdout=open(out, "w"), stderr=subprocess.STDOUT, cwd=wd,
+                       env=dict(os.environ, JAVA_TOOL_OPTIONS="-Xss512m"))
+    qs = [json.loads(json.loads(l)[6:]) for l in open(out, errors="replace") if l.startswith('"QFILE')]
+    if not qs or "No error has been found" not in open(out, errors="replace").read():
+        raise vlib.ToolError("MC_QueueExport failed:\n" + open(out, errors="replace").read()[-2000:])
+    os.remove(out)
+    cases = [queuefiles.case_of(q, i) for i, q in enumerate(qs)]
+    log(f"[C03] (A1) MC_QueueExport: {len(cases)} files = every packet sequence of the bounded QueueSpec environment")
+    return cases
+
+
 def build_inputs(cases, wd, tag, two_pc_every=7):
     """materialise: one file per case with a rotating XML lexical variant; some files hold two point clouds"""
     path = os.path.join(wd, f"{tag}.inputs.ndjson")
@@ -99,6 +118,8 @@ def run(tier, seed, args):
         vlib.tlaps(v, wd, "QueueLemmas", ["Conservation", "AllArrive", "PaddingBound", "NoPaddingValuesFromByteWide"])
     cases = encoder_cases(wd, deep)
     log(f"[C03] (A) MC_Encode: {len(cases)} scene x layout cases, decoder(encoder(case)) = case for each")
+    nenc = len(cases)
+    cases = cases + queue_files(v, wd, deep)
     inp, n = build_inputs(cases, wd, "c03")
     raw = os.path.join(wd, "c03.raw.ndjson")
     aborts = vlib.harness_supervised(exe, ["e57-read", "--cases", inp, "--queue-policies", 4 if deep else 2], raw, n)
